@@ -1264,13 +1264,6 @@ func (c *control) dirR(colon, at bool, params []any) {
 			}
 			return
 		}
-		one := cardinalOne
-		teen := cardinalTeen
-		if colon {
-			// prints arg as an ordinal English number: fourth.
-			one = ordinalOne
-			teen = ordinalTeen
-		}
 		i := len(digits) - 1
 		for _, trip := range cardinalTriples {
 			if 0 < len(trip) {
@@ -1280,7 +1273,7 @@ func (c *control) dirR(colon, at bool, params []any) {
 			d := digits[i]
 			i--
 			if i < 0 {
-				words = append(words, one[d-'0'])
+				words = append(words, cardinalOne[d-'0'])
 				break
 			}
 			d10 := digits[i]
@@ -1289,33 +1282,39 @@ func (c *control) dirR(colon, at bool, params []any) {
 			case '0':
 				if d != '0' {
 					zero = false
-					words = append(words, one[d-'0'])
+					words = append(words, cardinalOne[d-'0'])
 				}
 			case '1':
 				zero = false
-				words = append(words, teen[d-'0'])
+				words = append(words, cardinalTeen[d-'0'])
 			default:
 				zero = false
-				words = append(words, one[d-'0'])
+				if d != '0' { // twenty, not twenty and an empty word
+					words = append(words, cardinalOne[d-'0'])
+				}
 				words = append(words, cardinalTen[d10-'0'-2])
 			}
-			one = cardinalOne
-			teen = cardinalTeen
 			if 0 <= i {
 				d := digits[i]
 				i--
 				if d != '0' {
 					zero = false
 					words = append(words, "hundred")
-					words = append(words, one[d-'0'])
+					words = append(words, cardinalOne[d-'0'])
 				}
 			}
-			if zero {
+			if zero && 0 < len(trip) { // drop the scale word of a group of 000
 				words = words[:len(words)-1]
 			}
 			if i < 0 {
 				break
 			}
+		}
+		if colon {
+			// prints arg as an ordinal English number: the last word spoken
+			// (the first in words) takes the ordinal form, fourth or twentieth
+			// or thousandth.
+			words[0] = ordinalWord(words[0])
 		}
 		if neg {
 			words = append(words, "negative")
@@ -1328,6 +1327,22 @@ func (c *control) dirR(colon, at bool, params []any) {
 			c.out = append(c.out, sep...)
 		}
 	}
+}
+
+// ordinalWord returns the ordinal form of a cardinal number word.
+func ordinalWord(w string) string {
+	for i, c := range cardinalOne {
+		if w == c && 0 < i {
+			return ordinalOne[i]
+		}
+	}
+	switch {
+	case w == "twelve":
+		return "twelfth"
+	case w[len(w)-1] == 'y':
+		return w[:len(w)-1] + "ieth"
+	}
+	return w + "th"
 }
 
 func (c *control) dirS(colon, at bool, params []any) {
